@@ -1195,6 +1195,9 @@ class TorClientEndpoint(object):
             raise RuntimeError(
                 "txtorcon socks support doesn't yet do username/password"
             )
+        # every connection has its own local address (an endpoint may
+        # be used more than once)
+        self._when_address = SingleObserver()
         if self._socks_endpoint is not None:
             socks_ep = TorSocksEndpoint(
                 self._socks_endpoint,
